@@ -324,7 +324,95 @@ func init() {
 			{Name: "joins", N: func(c *Ctx) int { return joinN() }, Run: joinModel("C19", false), Exhaustive: true},
 			{Name: "hash-hostile-names", N: func(c *Ctx) int { return hashNamesN() }, Run: hashNamesRun("C19"), Exhaustive: true},
 			{Name: "wide-let", N: func(c *Ctx) int { return len(wideLetSizes) }, Run: wideLetRun("C19"), Exhaustive: true},
+			{Name: "towers", Setup: c19Setup, N: c19TowersN, Run: c19Towers},
 			{Name: "random", Setup: c19Setup, N: func(c *Ctx) int { return tierN(c, 40000, 10000000) }, Run: c19Random},
 		},
 	})
+}
+
+// c19Towers: lets nested 2..1000 deep.  Each level binds one or two names from a pool of eight to a
+// value that identifies the level - or to null, false, an empty array (values an "is it bound?" test
+// may confuse with absence), or to an outer variable; the innermost body reads every name of the
+// pool.  Implementations that flatten, collapse or copy scope chains beyond some depth must still
+// resolve each name to its nearest binding.
+var c19TowerDepths = []int{2, 3, 7, 8, 9, 15, 16, 17, 18, 31, 32, 33, 63, 64, 65, 100, 127, 128, 129, 255, 257, 1000}
+
+func c19TowersN(c *Ctx) int { return len(c19TowerDepths) * tierN(c, 40, 2000) }
+
+func c19Towers(c *Ctx, idx int) {
+	r := c.Rand("")
+	depth := c19TowerDepths[idx%len(c19TowerDepths)]
+	pool := []string{"$a", "$b", "$c", "$d", "$e", "$f", "$g", "$h"}
+	var b strings.Builder
+	// the outermost let binds the whole pool, so that every later reference is defined
+	b.WriteString("let ")
+	for i, v := range pool {
+		if i > 0 {
+			b.WriteString(", ")
+		}
+		fmt.Fprintf(&b, "%s = 'top-%d'", v, i)
+	}
+	b.WriteString(" in ")
+	closers := 0
+	style := idx % 3
+	for lvl := 1; lvl < depth; lvl++ {
+		nb := 1 + r.Intn(2)
+		b.WriteString("let ")
+		used := map[string]bool{}
+		for j := 0; j < nb; j++ {
+			v := pool[r.Intn(len(pool))]
+			if used[v] {
+				continue
+			}
+			if j > 0 {
+				b.WriteString(", ")
+			}
+			used[v] = true
+			var val string
+			switch r.Intn(10) {
+			case 0, 1, 2:
+				val = "`null`"
+			case 3:
+				val = "`false`"
+			case 4:
+				val = "`[]`"
+			case 5:
+				val = pool[r.Intn(len(pool))] // an outer variable (possibly the one being rebound)
+			case 6:
+				val = "missing"
+			default:
+				val = fmt.Sprintf("`%d`", lvl)
+			}
+			fmt.Fprintf(&b, "%s = %s", v, val)
+		}
+		b.WriteString(" in ")
+		if style == 1 && lvl%5 == 0 {
+			b.WriteString("[")
+			closers++
+		} else if style == 2 && lvl%7 == 0 {
+			b.WriteString("xs[*].[")
+			closers += 2
+		}
+	}
+	b.WriteString("[" + strings.Join(pool, ", ") + "]")
+	// close the wrappers opened on the way down (innermost first)
+	text := b.String()
+	opened := []string{}
+	for lvl := 1; lvl < depth; lvl++ {
+		if style == 1 && lvl%5 == 0 {
+			opened = append(opened, "]")
+		} else if style == 2 && lvl%7 == 0 {
+			opened = append(opened, "]")
+		}
+	}
+	for i := len(opened) - 1; i >= 0; i-- {
+		text += opened[i]
+	}
+	m, _ := c.CheckModel("C19", text, c19Doc, c19Go, CheckOpts{Compiled: idx%4 == 0, Features: map[string]string{"stream": "towers", "depth": fmt.Sprint(depth)}})
+	if !m.Unspec {
+		c.Nontrivial(text)
+		if depth <= 3 {
+			c.Sample(map[string]any{"expr": text, "model": clipS(m.String(), 200)})
+		}
+	}
 }
